@@ -194,6 +194,13 @@ def main_wrapper(fn):
     sys.exit(rc)
 
 
+def fresh(s):
+    """an equal string that is NOT the interned constant (what a caller reads from a file, a command line or JSON): a library that
+    compares its arguments by identity instead of equality treats it differently"""
+    t = ''.join(list(s))
+    return t
+
+
 def cps(s: str):
     return [ord(c) for c in s]
 
